@@ -42,7 +42,7 @@ class C12(P.Property):
                    "an unacknowledged request in flight when its connection ends may or may not have been applied"]
     probe_names = ["two_waiters_one_predecessor", "newcomer_during_cleanup", "waiter_closes_before_served", "predecessor_aborted",
                    "request_queued_while_waiting", "overlap_init_state_0", "overlap_init_state_1", "overlap_init_state_2",
-                   "three_overlapping", "overlap_longer_than_20s", "state_file_read_error", "other_service_connection"]
+                   "three_overlapping", "overlap_longer_than_20s", "state_file_read_error", "other_service_connection", "pipelined_pair", "two_listeners"]
 
     def setup(self):
         world.setup_frontend()
@@ -75,7 +75,10 @@ class C12(P.Property):
         for n in "ABC"[:nact]:
             sc = ["open"]
             for _ in range(rng.randint(0, 3)):
-                sc.append(rng.choice(enabled))
+                x = rng.choice(enabled)
+                if x in ("config", "upload") and rng.random() < 0.12:
+                    x += "2"  # two requests of that kind back to back, the second (other content) not waiting for the first reply
+                sc.append(x)
             sc.append("abort" if rng.random() < 0.25 else "close")
             scripts[n] = sc
         gaps = rng.choice([GAPS, GAPS, [0, 0.01, 0.3], [0.99, 1.0, 1.01, 2.5], GAPS + [5, 12, 25, 45]])  # the last: long overlaps (keep-alive, timeouts)
@@ -106,6 +109,10 @@ class C12(P.Property):
         if rng.random() < 0.15 and steps:
             # the wall clock is stepped before that step (NTP correction, VM resume): time.time() and new file stamps jump, loop time does not
             knobs["clock_steps"] = {str(rng.randrange(len(steps))): rng.choice([-3600.0, -5.0, -0.5, -3 * 86400.0, 3600.0, 9 * 86400.0])}
+        if rng.random() < 0.12:
+            # the server process serves through two listeners (two ports); connections of one service may arrive through either
+            knobs["two_listeners"] = True
+            knobs["ports"] = {n: rng.choice([8001, 8002]) for n in "ABCD"}
         if rng.random() < 0.2:
             # the URL path is the client's choice (the server URI is a client setting); it names no other service
             knobs["paths"] = {n: rng.choice(["", "/", "/staging", "/v2/sse"]) for n in "ABC"}
@@ -192,7 +199,7 @@ class C12(P.Property):
                     if a is None:
                         a = actors[n] = fe.RawActor(run, n, SID if n != "D" else OTHER_SID)
                         run.ev("c_do", n, "open")
-                        await a.open(path=(knobs.get("paths") or {}).get(n, ""))
+                        await a.open(path=(knobs.get("paths") or {}).get(n, ""), port=(knobs.get("ports") or {}).get(n, 8001))
                 elif a is None or not a.opened:
                     pass
                 elif do == "config":
@@ -201,6 +208,17 @@ class C12(P.Property):
                 elif do == "upload":
                     sent.append((run.ev("c_do", n, do), n, do))
                     await a.send("upload_edb", acts[n]["edb"])
+                elif do in ("upload2", "config2"):
+                    # pipelined pair: both are in the connection's receive queue before the first is answered; at most the first may be
+                    # acknowledged (the second asks to replace what the first stored)
+                    other = "ABC"[("ABC".index(n) + 1) % 3] if n in "ABC" else "A"
+                    for who in (n, other):
+                        sent.append((run.ev("c_do", n, do[:-1]), n, do[:-1]))
+                        if do == "upload2":
+                            await a.send("upload_edb", acts[who]["edb"])
+                        else:
+                            await a.send("config", pickle.dumps(acts[who]["cfg"]))
+                    out["probes_extra"] = {"pipelined_pair": 1}
                 elif do == "search":
                     sent.append((run.ev("c_do", n, do), n, do))
                     await a.send("token", acts[n]["tok"], token_digest=b"d-" + n.encode())
@@ -347,8 +365,11 @@ class C12(P.Property):
                     probes["overlap_longer_than_20s"] = 1
         # clause 2: no rollback
         actors = out.get("actors", {})
-        cfg_acks = ([out["acked_cfg"]] if out["acked_cfg"] else []) + [n for n, a in sorted(actors.items()) if "config" in a.acks]
-        edb_acks = ([out["acked_edb"]] if out["acked_edb"] else []) + [n for n, a in sorted(actors.items()) if "upload_edb" in a.acks]
+        cfg_acks = ([out["acked_cfg"]] if out["acked_cfg"] else []) + [n for n, a in sorted(actors.items()) for _ in range(a.acks.count("config"))]
+        edb_acks = ([out["acked_edb"]] if out["acked_edb"] else []) + [n for n, a in sorted(actors.items()) for _ in range(a.acks.count("upload_edb"))]
+        probes.update(out.get("probes_extra") or {})
+        if knobs.get("two_listeners") and len(set((knobs.get("ports") or {}).get(n, 8001) for n in actors if n != "D")) > 1:
+            probes["two_listeners"] = 1
         want = 2 if edb_acks else 1 if cfg_acks else 0
         prev = None
         for (i, st, site, conn) in meta_writes:
@@ -443,7 +464,7 @@ class C12(P.Property):
     # ------------------------------------------------------------------ minimisation
     def simplifications(self, plan):
         k = plan["knobs"]
-        for key, val in (("skew", 1.0), ("bufsize", 8192), ("scheme", "CJJ14.PiBas"), ("net", dict(lo=0.01, hi=0.01)), ("gc_every", 0), ("big", False), ("read_fault", None), ("paths", None), ("mtime_gran", None), ("clock_steps", None)):
+        for key, val in (("skew", 1.0), ("bufsize", 8192), ("scheme", "CJJ14.PiBas"), ("net", dict(lo=0.01, hi=0.01)), ("gc_every", 0), ("big", False), ("read_fault", None), ("paths", None), ("mtime_gran", None), ("clock_steps", None), ("two_listeners", None), ("ports", None)):
             if k.get(key) != val:
                 yield dict(plan, knobs=dict(k, **{key: val}))
         if k["init_state"] > 0:
